@@ -11,7 +11,11 @@ import (
 	"fmt"
 	"go/token"
 	"go/types"
+	"sort"
+	"strconv"
 	"strings"
+
+	"golang.org/x/tools/go/ssa"
 )
 
 // callMethod invokes method name on the dynamic value of itf, if it has one.
@@ -76,6 +80,11 @@ func (i *interpreter) fmtOperand(fr *frame, spec string, verb byte, arg value, d
 		return str(typeString(itf.t))
 	}
 	v := itf.v
+	if verb == 'v' && strings.Contains(spec, "#") && itf.t != nil {
+		if _, ok := i.callMethodProbe(itf, "GoString"); !ok {
+			return i.goSyntax(fr, itf.t, v, depth)
+		}
+	}
 	// reflect.Value operands print what they hold
 	if itf.t != nil && i.reflectValueType != nil && types.Identical(itf.t, i.reflectValueType) {
 		r := rv(v)
@@ -132,7 +141,7 @@ func (i *interpreter) fmtOperand(fr *frame, spec string, verb byte, arg value, d
 		if itf.t != nil {
 			if mt, ok := itf.t.Underlying().(*types.Map); ok {
 				out := str("map[")
-				for k, e := range x.liveEntries() {
+				for k, e := range i.fmtSortedEntries(x) {
 					if k > 0 {
 						out = append(out, uint8(' '))
 					}
@@ -340,4 +349,226 @@ func ext۰fmt۰Fprint(fr *frame, a []value) value {
 
 func ext۰fmt۰Fprintln(fr *frame, a []value) value {
 	return fr.i.writeTo(fr, a[0], fr.i.sprint(fr, a[1].([]value), true))
+}
+
+
+// callMethodProbe reports whether the dynamic type has the method (without calling it).
+func (i *interpreter) callMethodProbe(itf iface, name string) (*ssa.Function, bool) {
+	if itf.t == nil {
+		return nil, false
+	}
+	if _, isR := itf.v.(rtype); isR {
+		return nil, false
+	}
+	sel := i.prog.MethodSets.MethodSet(itf.t).Lookup(nil, name)
+	if sel == nil {
+		return nil, false
+	}
+	fn := i.prog.MethodValue(sel)
+	return fn, fn != nil
+}
+
+// fmtSortedEntries orders map entries the way fmt prints them (internal/fmtsort): by key
+// for keys of one basic kind. Maps whose order cannot be modelled (symbolic keys, keys of
+// mixed dynamic types, composite keys) with more than one entry are not supported.
+func (i *interpreter) fmtSortedEntries(m *gmap) []*gentry {
+	es := m.liveEntries()
+	if len(es) < 2 {
+		return es
+	}
+	keyOf := func(v value) (interface{}, types.Type) {
+		if itf, ok := v.(iface); ok {
+			return itf.v, itf.t
+		}
+		return v, nil
+	}
+	var t0 types.Type
+	for k, e := range es {
+		kv, kt := keyOf(e.key)
+		if _, ok := nativeOf(kv); !ok {
+			panic(unsupported("fmt: printing a map whose keys are symbolic or composite (order not modelled)"))
+		}
+		if k == 0 {
+			t0 = kt
+		} else if (kt == nil) != (t0 == nil) || (kt != nil && !types.Identical(kt, t0)) {
+			panic(unsupported("fmt: printing a map with keys of mixed dynamic types (order depends on type addresses)"))
+		}
+	}
+	out := append([]*gentry(nil), es...)
+	less := func(a, b value) bool {
+		x, _ := keyOf(a)
+		y, _ := keyOf(b)
+		switch x := x.(type) {
+		case string:
+			return x < y.(string)
+		case bool:
+			return !x && y.(bool)
+		case float64:
+			yy := y.(float64)
+			return x < yy || (x != x && yy == yy)
+		case float32:
+			yy := y.(float32)
+			return x < yy || (x != x && yy == yy)
+		}
+		xi, xs := asInt(x)
+		yi, _ := asInt(y)
+		if xs {
+			return int64(xi) < int64(yi)
+		}
+		return xi < yi
+	}
+	sort.SliceStable(out, func(a, b int) bool { return less(out[a].key, out[b].key) })
+	return out
+}
+
+func asInt(v interface{}) (uint64, bool) {
+	switch x := v.(type) {
+	case int:
+		return uint64(x), true
+	case int8:
+		return uint64(x), true
+	case int16:
+		return uint64(x), true
+	case int32:
+		return uint64(x), true
+	case int64:
+		return uint64(x), true
+	case uint:
+		return uint64(x), false
+	case uint8:
+		return uint64(x), false
+	case uint16:
+		return uint64(x), false
+	case uint32:
+		return uint64(x), false
+	case uint64:
+		return x, false
+	case uintptr:
+		return uint64(x), false
+	}
+	panic(unsupported("fmt: map key of unexpected kind %T", v))
+}
+
+// goSyntax renders %#v (Go-syntax representation) of a value of static type t.
+func (i *interpreter) goSyntax(fr *frame, t types.Type, v value, depth int) []value {
+	str := func(s string) []value { return strBytes(s) }
+	if depth > 8 {
+		return str("…")
+	}
+	if i.reflectValueType != nil && types.Identical(t, i.reflectValueType) {
+		r := rv(v)
+		if !r.valid {
+			return str("<invalid reflect.Value>")
+		}
+		return i.goSyntax(fr, r.t, r.v, depth+1)
+	}
+	ts := typeString(t)
+	switch u := t.Underlying().(type) {
+	case *types.Interface:
+		itf, _ := v.(iface)
+		if itf.t == nil {
+			if depth == 0 {
+				return str("<nil>")
+			}
+			return str(ts + "(nil)")
+		}
+		if fn, ok := i.callMethodProbe(itf, "GoString"); ok {
+			s := call(i, fr, token.NoPos, fn, []value{itf.v})
+			return strBytes(s)
+		}
+		return i.goSyntax(fr, itf.t, itf.v, depth+1)
+	case *types.Basic:
+		switch x := v.(type) {
+		case string:
+			return str(strconv.Quote(x))
+		case symStr:
+			out := []value{uint8('"')}
+			out = append(out, x.b...)
+			return append(out, uint8('"'))
+		case symV:
+			return str("⟨sym:" + x.t.String() + "⟩")
+		}
+		if n, ok := nativeOf(v); ok {
+			return str(fmt.Sprintf("%#v", n))
+		}
+	case *types.Slice:
+		x, _ := v.([]value)
+		if x == nil {
+			return str(ts + "(nil)")
+		}
+		out := str(ts + "{")
+		for k, e := range x {
+			if k > 0 {
+				out = append(out, str(", ")...)
+			}
+			out = append(out, i.goSyntax(fr, u.Elem(), e, depth+1)...)
+		}
+		return append(out, uint8('}'))
+	case *types.Array:
+		x, _ := v.(array)
+		out := str(ts + "{")
+		for k, e := range x {
+			if k > 0 {
+				out = append(out, str(", ")...)
+			}
+			out = append(out, i.goSyntax(fr, u.Elem(), e, depth+1)...)
+		}
+		return append(out, uint8('}'))
+	case *types.Map:
+		x, _ := v.(*gmap)
+		if x == nil {
+			return str(ts + "(nil)")
+		}
+		out := str(ts + "{")
+		for k, e := range i.fmtSortedEntries(x) {
+			if k > 0 {
+				out = append(out, str(", ")...)
+			}
+			out = append(out, i.goSyntax(fr, u.Key(), e.key, depth+1)...)
+			out = append(out, uint8(':'))
+			out = append(out, i.goSyntax(fr, u.Elem(), e.val, depth+1)...)
+		}
+		return append(out, uint8('}'))
+	case *types.Struct:
+		x, _ := v.(structure)
+		out := str(ts + "{")
+		for k, e := range x {
+			if k > 0 {
+				out = append(out, str(", ")...)
+			}
+			out = append(out, str(u.Field(k).Name()+":")...)
+			out = append(out, i.goSyntax(fr, u.Field(k).Type(), e, depth+1)...)
+		}
+		return append(out, uint8('}'))
+	case *types.Pointer:
+		x, _ := v.(*value)
+		if x == nil {
+			return str("(" + ts + ")(nil)")
+		}
+		if depth == 0 {
+			switch u.Elem().Underlying().(type) {
+			case *types.Struct, *types.Array, *types.Slice, *types.Map:
+				return append(str("&"), i.goSyntax(fr, u.Elem(), *x, depth+1)...)
+			}
+		}
+		return str(fmt.Sprintf("(%s)(0x%x)", ts, i.objID(x)))
+	case *types.Signature:
+		if isNilFunc(v) {
+			return str("(" + ts + ")(nil)")
+		}
+		return str(fmt.Sprintf("(%s)(0x%x)", ts, 0x4a0000))
+	}
+	return str(toString(v))
+}
+
+func isNilFunc(v value) bool {
+	switch f := v.(type) {
+	case nil:
+		return true
+	case *ssa.Function:
+		return f == nil
+	case *closure:
+		return f == nil
+	}
+	return false
 }
